@@ -1,8 +1,9 @@
+from checks.e3tables import run_e3tables
 from checks.generic import run_components
 
-ASSUME = ["A-INT: Python/numpy ints treated as mathematical integers", "A-FLOAT: floats treated as reals"]
+ASSUME = ["E3 tables: run-time contract on build_optimized_tables (offsets, permutation axis, values against an independent basix tabulation) is bounded by the corpus calls", "A-INT: Python/numpy ints treated as mathematical integers", "A-FLOAT: floats treated as reals"]
 
 
 def run(tier, seed):
-    return run_components("C08", tier, seed, ['e1', 'e2'], ASSUME,
+    return run_components("C08", tier, seed, ['e1', 'e2', lambda rep, t, sd: run_e3tables(rep, t, sd, ("T-PERM", "T-OFFSET"))], ASSUME,
                           ["kernelvc (E2 walker; scoping mirrors C/formatter.py)", "UFL form data as oracle for extents"])
